@@ -162,6 +162,7 @@ def _analyse(project: Project, fi: FunctionInfo, f, only=None, probe=None) -> Li
     if only is not None:
         array_params &= set(only)
     defs: Dict[str, List[ast.expr]] = {}
+    unpacked: Dict[str, List[ast.expr]] = {}
     for n in ast.walk(f):
         if isinstance(n, ast.Assign) and len(n.targets) == 1:
             t, v = n.targets[0], n.value
@@ -175,6 +176,7 @@ def _analyse(project: Project, fi: FunctionInfo, f, only=None, probe=None) -> Li
                 for tt in t.elts:
                     if isinstance(tt, ast.Name):
                         defs.setdefault(tt.id, []).append(None)  # unknown
+                        unpacked.setdefault(tt.id, []).append(v)   # ... but it derives from what the right-hand side reads
         elif isinstance(n, (ast.For, ast.comprehension)):
             for tt in ast.walk(n.target):
                 if isinstance(tt, ast.Name):
@@ -186,11 +188,48 @@ def _analyse(project: Project, fi: FunctionInfo, f, only=None, probe=None) -> Li
     inherited: Set[str] = set(array_params)
     floaty: Set[str] = set(float_params)
 
+    def is_intlike(e, depth=0) -> bool:
+        """an integer by construction: it keeps an integer-typed operand integer-typed"""
+        if e is None or depth > 5:
+            return False
+        if isinstance(e, ast.Constant):
+            return isinstance(e.value, int) and not isinstance(e.value, bool)
+        if isinstance(e, ast.UnaryOp):
+            return is_intlike(e.operand, depth + 1)
+        if isinstance(e, ast.Name):
+            vs = defs.get(e.id)
+            return bool(vs) and e.id not in params and all(v is not None and is_intlike(v, depth + 1) for v in vs)
+        if isinstance(e, ast.Subscript) and isinstance(e.value, ast.Attribute) and e.value.attr == "shape":
+            return True
+        if isinstance(e, ast.Attribute) and e.attr in ("size", "ndim"):
+            return True
+        if isinstance(e, ast.BinOp) and isinstance(e.op, (ast.Add, ast.Sub, ast.Mult, ast.FloorDiv, ast.Mod)):
+            return is_intlike(e.left, depth + 1) and is_intlike(e.right, depth + 1)
+        if isinstance(e, ast.Call):
+            t = res(e.func)
+            if t in ("builtins.int", "builtins.len", "builtins.round") and len(e.args) == 1:
+                return True
+            g = project.functions.get(t) if t else None
+            if g is not None and isinstance(g.node, (ast.FunctionDef, ast.AsyncFunctionDef)):
+                rets = [r for r in ast.walk(g.node) if isinstance(r, ast.Return) and r.value is not None]
+                return bool(rets) and all(isinstance(r.value, ast.Call) and isinstance(r.value.func, ast.Name)
+                                          and r.value.func.id in ("int", "len") for r in rets)
+        return False
+
     def is_inherited(e, depth=0) -> bool:
         if e is None or depth > 6:
             return False
         if isinstance(e, ast.Name):
             return e.id in inherited
+        if isinstance(e, ast.BinOp) and isinstance(e.op, (ast.Add, ast.Sub, ast.Mult, ast.FloorDiv, ast.Mod)):
+            # integer-preserving arithmetic on the caller's numbers keeps their dtype (int − int is int)
+            li, ri = is_inherited(e.left, depth + 1), is_inherited(e.right, depth + 1)
+            return (li or ri) and (li or is_intlike(e.left)) and (ri or is_intlike(e.right))
+        if isinstance(e, ast.UnaryOp) and isinstance(e.op, (ast.USub, ast.UAdd)):
+            return is_inherited(e.operand, depth + 1)
+        if isinstance(e, (ast.List, ast.Tuple)) and e.elts:
+            fl = [is_inherited(x, depth + 1) for x in e.elts]
+            return any(fl) and all(a_ or is_intlike(x) for a_, x in zip(fl, e.elts))
         if isinstance(e, ast.Subscript):
             return is_inherited(e.value, depth + 1)
         if isinstance(e, ast.Attribute) and e.attr == "T":
@@ -263,6 +302,12 @@ def _analyse(project: Project, fi: FunctionInfo, f, only=None, probe=None) -> Li
             if nme not in inherited and any(is_inherited(v) for v in vs):
                 inherited.add(nme)
                 changed = True
+            if nme not in inherited and any(isinstance(v, ast.Call) and any(is_inherited(a_) for a_ in v.args)
+                                            and (res(v.func) or "").startswith("persim.") for v in unpacked.get(nme, [])):
+                # one of several values handed back by a helper of the package that was given caller data (`S, M =
+                # _as_diagram(dgm1, ...)`): it may be that data in its own dtype
+                inherited.add(nme)
+                changed = True
             if nme not in floaty and vs and nme not in array_params and all(v is not None for v in vs):
                 # `x = np.linspace(...); x = x[:n]`: a definition in terms of the name itself keeps what the others give
                 selfref = [v for v in vs if any(isinstance(y, ast.Name) and y.id == nme for y in ast.walk(v))]
@@ -275,11 +320,48 @@ def _analyse(project: Project, fi: FunctionInfo, f, only=None, probe=None) -> Li
                         floaty.discard(nme)
     # a name that is re-bound to something of explicit dtype everywhere is not inherited (e.g. x = x.astype(float))
     for nme, vs in defs.items():
-        if nme in inherited and nme not in array_params and not any(is_inherited(v) for v in vs):
+        if nme in inherited and nme not in array_params and not any(is_inherited(v) for v in vs) and nme not in unpacked:
             inherited.discard(nme)
     if probe is not None:
         return [is_inherited(e) for e in probe]
     hits = []
+    # a cast of one piece of caller data to the dtype of ANOTHER piece of caller data: `T.astype(S.dtype)`,
+    # `np.asarray(T, dtype=S.dtype)` — when S is integer-typed and T is not, T is truncated
+    for n in ast.walk(f):
+        if not isinstance(n, ast.Call):
+            continue
+        src = dt = None
+        if isinstance(n.func, ast.Attribute) and n.func.attr == "astype" and n.args:
+            src, dt = n.func.value, n.args[0]
+        elif res(n.func) in CREATE_FUNCS and n.args and _has_dtype(n):
+            src, dt = n.args[0], [k.value for k in n.keywords if k.arg == "dtype"][0]
+        if src is None or not (isinstance(dt, ast.Attribute) and dt.attr == "dtype"):
+            continue
+        if is_inherited(src) and is_inherited(dt.value) and ast.unparse(src) != ast.unparse(dt.value):
+            # the same array under another name (a view / copy / reduction of it) is no second array: compare the parameters the
+            # two expressions derive from
+            def sources(e, depth=0):
+                out = set()
+                for x in ast.walk(e):
+                    if isinstance(x, ast.Name) and isinstance(x.ctx, ast.Load):
+                        if x.id in array_params:
+                            out.add(x.id)
+                        elif x.id in defs and depth < 5:
+                            for v in defs[x.id] + unpacked.get(x.id, []):
+                                if v is not None and not any(y is n for y in ast.walk(v)):   # not through the cast itself
+                                    out |= sources(v, depth + 1)
+                    elif isinstance(x, ast.Attribute) and isinstance(x.value, ast.Name) and x.value.id == "self":
+                        out.add("self." + x.attr)
+                return out
+            s1, s2 = sources(src), sources(dt.value)
+            # a parameter used as a number (an operand of arithmetic, a dimension) is a scalar setting, not a second array
+            scalar_like = {x.id for b_ in ast.walk(f) if isinstance(b_, ast.BinOp) for x in (b_.left, b_.right)
+                           if isinstance(x, ast.Name) and x.id in s2}
+            if s1 and s2 and not (s1 & s2) and not (s2 & scalar_like):
+                hits.append(dict(node=n, array=ast.unparse(src),
+                                 why=f"`{ast.unparse(n)[:90]}` casts `{ast.unparse(src)[:30]}` to the dtype of `{ast.unparse(dt.value)[:30]}`, "
+                                     f"another array of the caller: when that one is integer-typed and this one is not, its coordinates "
+                                     f"are truncated"))
     for n in ast.walk(f):
         if isinstance(n, ast.Assign) and len(n.targets) == 1 and isinstance(n.targets[0], ast.Subscript):
             base = n.targets[0].value
